@@ -4,6 +4,7 @@ sides over TCP loopback, through a proxy that can stall a direction or lose a me
 
 Time is real here, so a rejection counts only if the SAME scenario is rejected for the same property and reason when it is
 run a second time on its own."""
+import zlib
 import json, os, random
 from vlib import *
 import repo_tests
@@ -294,6 +295,14 @@ def wire_pool(run, seed, quick):
         if any(a["a"] == "advance" or a.get("mid") for a in s["steps"]):
             continue
         s = dict(s, id="w-" + s["id"], cfg=dict(s["cfg"], hbCfg=30 if s["cfg"]["role"] == "initiator" else s["cfg"]["hbCfg"]))
+        # handler queues of size 0, 1 and 10; and every history ends with a pipelined batch (ONE write): a damaged Heartbeat, a
+        # TestRequest, a damaged TestRequest, a TestRequest, a Logout - whatever state the session is in by then
+        h = zlib.crc32(s["id"].encode())
+        s["cfg"]["buf"] = [0, 1, 10][h % 3]
+        if s["steps"] and s["steps"][0]["a"] == "run":
+            s["steps"] = list(s["steps"]) + [sc.act("hbt", seq=9001, integ="checksum", pipe=True), sc.act("testreq", seq=9002, id=[116, 49], pipe=True),
+                                             sc.act("testreq", seq=9003, integ="checksum", id=[116, 120], pipe=True),
+                                             sc.act("testreq", seq=9004, id=[116, 50], pipe=True), sc.act("logout", seq=9005, pipe=True)]
         out.append(s)
     return out
 
@@ -361,6 +370,43 @@ def wire_check(run, quick, seed):
         if isinstance(r[3], dict):
             r[3]["wire_scenario"] = byid.get(r[1].split("#")[0])
     return both
+
+
+# ---- several sessions of one application at the same time, sharing what the API lets them share (harness/stack TestWireShared) ----
+
+def shared_check(run, quick):
+    """-> rejects of WireTrace on what each of six concurrent clients of one acceptor received (one options value and one
+    unmarshaller object for all sessions).  What was on the wire is a fact: no second run is needed."""
+    binp = go_test_build("./stack/", "stack.test", tags="verif")
+    rej = []
+    rounds = 2 if quick else 10
+    for i in range(rounds):
+        d = run.sub("shared-%d" % i)
+        env = goenv()
+        env["VERIF_STACK_OUT"] = d
+        p = sh([binp, "-test.run", "TestWireShared", "-test.timeout", "120s"], cwd=d, env=env, timeout=150, check=False)
+        tr = os.path.join(d, "shared.ndjson")
+        if p.returncode != 0 or not os.path.exists(tr):
+            lc = library_crash(p.stdout or "")
+            if lc:
+                raise LibraryPanic(lc[0], lc[1], "concurrent sessions of one acceptor")
+            raise Inconclusive("shared-session driver failed:\n" + (p.stdout or "")[-2500:])
+        cfg = "SPECIFICATION Spec\nCONSTANT TraceFile = \"%s\"\nPOSTCONDITION TraceAccepted\nCHECK_DEADLOCK FALSE\n" % tr
+        res = tlc("WireTrace", cfg, run.sub("tv-shared-%d" % i), ["WireTrace.tla"], workers=1, timeout=600, heap="3g")
+        if not res.ok:
+            raise Inconclusive("validation of the shared-session wires failed: %s\n%s" % (res.error, res.raw_tail[-2000:]))
+        run.states += res.distinct
+        run.transitions += res.generated
+        nmsgs = sum(len(json.loads(l)["msgs"]) for l in open(tr))
+        run.records += 6
+        run.extra.setdefault("concurrent_sessions_of_one_acceptor", {"rounds": 0, "clients": 6, "messages_received": 0})
+        run.extra["concurrent_sessions_of_one_acceptor"]["rounds"] += 1
+        run.extra["concurrent_sessions_of_one_acceptor"]["messages_received"] += nmsgs
+        for r in split_lines(res, "REJECT"):
+            if isinstance(r[3], dict):
+                r[3]["shared_round"] = i
+            rej.append(r)
+    return rej
 
 
 # ---- arbitrary byte strings on the inbound path of a running session (harness/stack TestWireGarbage; C11) ----
